@@ -20,19 +20,19 @@ import (
 // through the I/O trace and the disk.
 
 type C18Params struct {
-	Mode string `json:"mode"` // arg | stdin | root | all
-	Cmd  string `json:"cmd"`  // generate | update | compare | format
-	Arg  string `json:"arg"`
-	Cwd  string `json:"cwd"`
-	Dir  string `json:"dir"`
-	DirAbs bool `json:"dir_abs"`
+	Mode   string `json:"mode"` // arg | stdin | root | all
+	Cmd    string `json:"cmd"`  // generate | update | compare | format
+	Arg    string `json:"arg"`
+	Cwd    string `json:"cwd"`
+	Dir    string `json:"dir"`
+	DirAbs bool   `json:"dir_abs"`
 	// expectations computed from the statement by the generator
-	Accept   bool   `json:"accept"`
-	File     string `json:"file"`      // sandbox-relative path of the assembly file that must be read
-	Root     string `json:"root"`      // sandbox-relative expected root ("" = none can be resolved)
-	Link     int    `json:"link"`      // chain offset
-	Names    []string `json:"names"`   // mode all: file names present
-	Plan     simrt.Plan `json:"plan"`
+	Accept bool       `json:"accept"`
+	File   string     `json:"file"`  // sandbox-relative path of the assembly file that must be read
+	Root   string     `json:"root"`  // sandbox-relative expected root ("" = none can be resolved)
+	Link   int        `json:"link"`  // chain offset
+	Names  []string   `json:"names"` // mode all: file names present
+	Plan   simrt.Plan `json:"plan"`
 }
 
 var leadingZeroK = regexp.MustCompile(`-chain0[0-9]`)
@@ -357,9 +357,9 @@ func evalC18(sc *Scenario, sim *Sim) ([]Violation, bool, string) {
 				add("root", "no-root-used", fmt.Sprintf("the command did not open the configuration below the expected root %q (exit %d)", p.Root, r.Exit), clip(r.Stderr))
 			}
 			if leadingZeroK.MatchString(p.Arg) && r.Exit != 0 {
-			break // whether K may be written with leading zeros is not fixed by the statement: a rejection is not judged
-		}
-		if r.Exit != 0 && !(p.Cmd == "compare" && strings.Contains(string(r.Stdout), "has changed!")) {
+				break // whether K may be written with leading zeros is not fixed by the statement: a rejection is not judged
+			}
+			if r.Exit != 0 && !(p.Cmd == "compare" && strings.Contains(string(r.Stdout), "has changed!")) {
 				add("root", "fails-in-valid-root", fmt.Sprintf("the command fails (exit %d) although the root %q resolves", r.Exit, p.Root), clip(r.Stderr))
 			}
 		} else if r.Exit == 0 {
@@ -380,7 +380,10 @@ func evalC18(sc *Scenario, sim *Sim) ([]Violation, bool, string) {
 		rf := c18Rules()
 		orig := rf.Content
 		wantFail := false
-		type upd struct{ rule, link int; text string }
+		type upd struct {
+			rule, link int
+			text       string
+		}
 		var upds []upd
 		names := append([]string{}, p.Names...)
 		sortStrings(names)
